@@ -242,4 +242,36 @@ example : (payload false 2 {} [0, 0, 1, 0x65, 1, 2]).1 = [] := by decide +kernel
 example : holdback none none [[0x67, 1], [0x65, 2], [0x68, 3], [0x41, 4]] =
     [[0x65, 2], [0x67, 1], [0x68, 3], [0x41, 4]] := by decide
 
+/-! ### the predicates are not vacuous: they reject what the unrepaired code did, and other wrong shapes -/
+
+/-- DESIGN §7 row 12 as observed on the unrepaired tree (`c10.rt 1488 …`): MTU 3, SPS, PPS, IDR of
+    two bytes each — only the IDR was sent.  The predicate says no. -/
+example : C10.rtOk
+    { disable := false, avc := true,
+      calls := [{ mtu := 3, bare := false, units := [(true, [0x47, 0x01]), (false, [0x68, 0x89]), (true, [0x25, 0x01])] }] }
+    { panicked := false,
+      calls := [[{ payload := [0x25, 0x01], head := true, res := .ok [0, 0, 0, 2, 0x25, 0x01] }]] } = false := by
+  decide
+
+/-- an E bit on the middle fragment: the payloads do not parse as RFC 6184 units -/
+example : parse [[0x7C, 0x85, 1], [0x7C, 0x45, 2], [0x7C, 0x45, 3]] = none := by decide
+
+/-- SPS and PPS sent on their own although the STAP-A would fit MTU 1200: the units are all there
+    (`shapeOk` without the aggregation clause would pass), `aggOk` says no -/
+example : aggOk false [(1200, [0x67, 1]), (1200, [0x68, 2]), (1200, [0x65, 3])]
+    [.single [0x67, 1], .single [0x68, 2], .single [0x65, 3]] = false := by decide
+example : aggOk false [(1200, [0x67, 1]), (1200, [0x68, 2]), (1200, [0x65, 3])]
+    [.stapA 0x78 [[0x67, 1], [0x68, 2]], .single [0x65, 3]] = true := by decide
+/-- … and it does not ask for a STAP-A that cannot fit (MTU 8 < 5 + 2 + 2) -/
+example : aggOk false [(8, [0x67, 1]), (8, [0x68, 2]), (8, [0x65, 3])]
+    [.single [0x67, 1], .single [0x68, 2], .single [0x65, 3]] = true := by decide
+/-- with STAP-A disabled any STAP-A is refused -/
+example : aggOk true [] [.stapA 0x78 [[0x67, 1], [0x68, 2]]] = false := by decide
+
+/-- a receiver that loses the NRI when reassembling (mutation drill M12) fails `decodeOk` -/
+example : C10.decodeOk false [[0x65, 1, 2]]
+    [{ payload := [0x7C, 0x85, 1], head := true, res := .ok [] },
+     { payload := [0x7C, 0x45, 2], head := false, res := .ok [0, 0, 0, 1, 0x45, 1, 2] }] = false := by
+  decide
+
 end Rtp.Props.C10
